@@ -325,6 +325,11 @@ type CheckResult struct {
 func (s *Solver) Feasible() bool {
 	t0 := time.Now()
 	r, _ := s.checkRaw(1500)
+	if r == "unknown" && time.Since(t0) > 1300*time.Millisecond {
+		// ran out of time (a loaded machine), not out of ideas: exploring an
+		// infeasible branch only produces obligations nobody can prove, so try harder
+		r, _ = s.checkRaw(8000)
+	}
 	s.TimeBy["z3-new"] += time.Since(t0).Seconds()
 	s.Checks++
 	return r != "unsat"
@@ -369,10 +374,13 @@ func (s *Solver) fallbacks(script string, cr CheckResult) CheckResult {
 			{"cvc5", "cvc5", []string{"--lang=smt2", fmt.Sprintf("--tlimit=%d", s.timeout)}},
 		},
 		{
-			{"z3-new/default-config/3x", "z3-new", []string{"-smt2", "-in", fmt.Sprintf("-T:%d", 3*sec)}},
-			{"z3-new/3x", "z3-new", []string{"-smt2", "-in", fmt.Sprintf("-T:%d", 3*sec)}},
-			{"z3-4.8.12/3x", "/usr/bin/z3", []string{"-smt2", "-in", fmt.Sprintf("-T:%d", 3*sec)}},
+			{"z3-new/default-config/4x", "z3-new", []string{"-smt2", "-in", fmt.Sprintf("-T:%d", 4*sec)}},
+			{"z3-new/4x", "z3-new", []string{"-smt2", "-in", fmt.Sprintf("-T:%d", 4*sec)}},
+			{"z3-4.8.12/4x", "/usr/bin/z3", []string{"-smt2", "-in", fmt.Sprintf("-T:%d", 4*sec)}},
 		},
+	}
+	if os.Getenv("GOVC_NO_LASTRESORT") != "" {
+		rounds = rounds[:1]
 	}
 	for _, round := range rounds {
 		// the solvers of one round race; the first proof wins
@@ -441,7 +449,7 @@ func (s *Solver) Prove(goal *Term, vals []*Term) CheckResult {
 var lastScript string
 
 func adaptScript(name, script string) string {
-	if name != "z3-new/3x" {
+	if name != "z3-new/4x" {
 		script = strings.Replace(script, "(set-option :smt.auto-config false)\n", "", 1)
 	}
 	if name == "cvc5" {
